@@ -914,7 +914,122 @@ func errlineOne(r *errRec, i int, seed int64, tmpdir string) (string, error, err
 			}
 		}
 	}
+	// the same text with escape sequences that denote (but are not) line breaks in every string
+	if v := escapeVariant(text); v != text {
+		judged, err := hookOracle(root, v)
+		if judged {
+			es.judged++
+			es.hookUsed++
+		}
+		if err != nil {
+			return v, err, es
+		}
+	}
 	return text, nil, es
+}
+
+// hookOracle: for any text at all, a cited line must be the line of the byte the state machine was handling when it
+// returned the error (verifStep hook; the machine counts a newline before it handles it).
+func hookOracle(root byte, text string) (judged bool, err error) {
+	installStepHook()
+	defer func() { at.VerifStepHook = nil }()
+	hookCalls = 0
+	var perr error
+	if gerr := guard(func() error {
+		_, perr = jsonx.Parse(root, text)
+		return nil
+	}); gerr != nil {
+		return false, fmt.Errorf("parser panicked on %s: %v", clip(text), gerr)
+	}
+	if perr == nil {
+		return false, nil
+	}
+	m := lineRe.FindStringSubmatch(perr.Error())
+	if m == nil || hookCalls == 0 {
+		return false, nil
+	}
+	cited, _ := strconv.Atoi(m[1])
+	off := len(text) - hookRemaining
+	if off < 0 || off >= len(text) {
+		return false, nil
+	}
+	want := 1 + strings.Count(text[:off], "\n")
+	if text[off] == '\n' {
+		want++
+	}
+	if cited != want {
+		return true, fmt.Errorf("error %q cites line %d; the machine detected it at byte %d (%q) which is on line %d of %s", perr, cited, off, text[off], want, clip(text))
+	}
+	return true, nil
+}
+
+func clip(text string) string {
+	if len(text) <= 300 {
+		return strconv.Quote(text)
+	}
+	return fmt.Sprintf("%q … (%d bytes, %d newlines) … %q", text[:120], len(text), strings.Count(text, "\n"), text[len(text)-120:])
+}
+
+// escapeVariant rewrites every string literal "abc" of a text into "\nabc\u000a" (escape sequences that DENOTE newlines
+// but are none): the line of every byte stays what it was.
+func escapeVariant(text string) string {
+	var b strings.Builder
+	in := false
+	for i := 0; i < len(text); i++ {
+		c := text[i]
+		switch {
+		case in && c == '\\' && i+1 < len(text):
+			b.WriteByte(c)
+			i++
+			b.WriteByte(text[i])
+		case c == '"' && !in:
+			in = true
+			b.WriteString("\"\\n")
+		case c == '"' && in:
+			in = false
+			b.WriteString("\\u000a\\r\"")
+		default:
+			b.WriteByte(c)
+		}
+	}
+	return b.String()
+}
+
+// errlineFixed: errors far down (beyond 65 535 and 131 072 lines), behind escapes that denote line breaks, raw CR LF.
+func errlineFixed() []struct {
+	root byte
+	text string
+} {
+	nl := func(n int) string { return strings.Repeat("\n", n) }
+	var out []struct {
+		root byte
+		text string
+	}
+	add := func(root byte, text string) {
+		out = append(out, struct {
+			root byte
+			text string
+		}{root, text})
+	}
+	for _, n := range []int{254, 255, 256, 65534, 65535, 65536, 70003, 131075} {
+		add('L', nl(n)+"[1,@]")
+		add('L', "["+nl(n)+"@]")
+		add('L', "[[1,"+nl(n)+"[2,\n;]]]")
+		add('O', "preamble"+nl(n)+"{\"a\":tru,\n\"b\":1}")
+		add('O', "{\"a\":{\"b\":["+strings.Repeat("1,\n", n)+"x]}}")
+		add('O', "{\"k\":\""+nl(n)+"\" ; 1}")
+	}
+	for _, s := range []string{
+		"[\"a\\nb\",\n\"c\\u000ad\",\n@]", "{\"k\\n\":1,\n\"l\\u000A\":2,\n\"m\" 3}", "[\"\\\\n\",\n\"\\r\\n\\r\\n\",\n[\"x\\n\",\ntru]]",
+		"[1,\r\n2,\r\n@]", "[\"raw\nnewline\",\n\"\\n\",\n;]", "{\"a\":\"\\n\\n\\n\",\n\"b\":[\"\\n\"\n,nul]}",
+	} {
+		if s[0] == '[' {
+			add('L', s)
+		} else {
+			add('O', s)
+		}
+	}
+	return out
 }
 
 func cmdErrLine(args []string) int {
@@ -961,7 +1076,26 @@ func cmdErrLine(args []string) int {
 			break
 		}
 	}
-	return finishDocs(*prop, st, *out, *replayDir, map[string]any{"tlc_records": len(recs), "judged_calls": tot.judged, "errors_with_line": tot.withLine,
+	fixed := 0
+	if st.nviol() == 0 {
+		for _, f := range errlineFixed() {
+			judged, verr := hookOracle(f.root, f.text)
+			if judged {
+				fixed++
+				st.evals++
+			}
+			if verr != nil {
+				msg := verr.Error()
+				sig := msg
+				if len(sig) > 100 {
+					sig = sig[:100]
+				}
+				st.fail(&docViolation{Property: *prop, Message: msg, Sig: "errline-fixed: " + sig, Check: "errline", Input: clip(f.text), Text: f.text, Seed: *seed})
+				break
+			}
+		}
+	}
+	return finishDocs(*prop, st, *out, *replayDir, map[string]any{"tlc_records": len(recs), "fixed_far_down_texts_judged": fixed, "judged_calls": tot.judged, "errors_with_line": tot.withLine,
 		"accepted_without_error": tot.noError, "hook_exact_checks": tot.hookUsed, "wall_s": time.Since(start).Seconds()})
 }
 
